@@ -288,6 +288,14 @@ impl<'tcx> Cx<'tcx> {
                     upvars.push(J::obj(vec![
                         ("name", J::str(cap.to_string(tcx))),
                         ("by_ref", J::Bool(cap.is_by_ref())),
+                        ("borrow", J::str(match cap.info.capture_kind {
+                            ty::UpvarCapture::ByValue => "value",
+                            ty::UpvarCapture::ByUse => "use",
+                            ty::UpvarCapture::ByRef(ty::BorrowKind::Immutable) => "imm",
+                            ty::UpvarCapture::ByRef(ty::BorrowKind::UniqueImmutable) => "uniq",
+                            ty::UpvarCapture::ByRef(ty::BorrowKind::Mutable) => "mut",
+                        })),
+                        ("ty", J::str(format!("{}", cap.place.ty()))),
                     ]));
                 }
             }
@@ -445,37 +453,78 @@ impl<'tcx> Cx<'tcx> {
             return None;
         }
         let pbody = &tcx.promoted_mir(did)[p];
-        let mut found: Option<J> = None;
+        // straight-line evaluation of the promoted body: constants, moves, arrays / tuples of
+        // them, and references to such locals; the value of the return place is the constant
+        let mut vals: std::collections::HashMap<rustc_middle::mir::Local, J> = std::collections::HashMap::new();
+        let get_op = |vals: &std::collections::HashMap<rustc_middle::mir::Local, J>, o: &Operand<'tcx>| -> Option<J> {
+            match o {
+                Operand::Constant(c2) => {
+                    let cv = c2.const_.eval(tcx, TypingEnv::fully_monomorphized(), c2.span).ok()?;
+                    Some(self.const_value(cv, c2.const_.ty(), 0))
+                }
+                Operand::Copy(pl) | Operand::Move(pl) => {
+                    if pl.projection.is_empty() {
+                        vals.get(&pl.local).cloned()
+                    } else if pl.projection.len() == 1 && matches!(pl.projection[0], rustc_middle::mir::ProjectionElem::Deref) {
+                        vals.get(&pl.local).cloned()
+                    } else {
+                        None
+                    }
+                }
+                _ => None,
+            }
+        };
         for data in pbody.basic_blocks.iter() {
             for st in data.statements.iter() {
                 if let StatementKind::Assign(b) = &st.kind {
-                    if let Rvalue::Use(Operand::Constant(c2), _) = &b.1 {
-                        let inner_ty = c2.const_.ty();
-                        if let Ok(cv) = c2.const_.eval(tcx, TypingEnv::fully_monomorphized(), c2.span) {
-                            found = Some(self.const_value(cv, inner_ty, 0));
-                        }
+                    if !b.0.projection.is_empty() {
+                        return None;
                     }
-                    if let Rvalue::Aggregate(_, ops) = &b.1 {
-                        // arrays of named constants: `[A, B, C]`
-                        let mut items = Vec::new();
-                        let mut ok = true;
-                        for o in ops.iter() {
-                            if let Operand::Constant(c2) = o {
-                                if let Ok(cv) = c2.const_.eval(tcx, TypingEnv::fully_monomorphized(), c2.span) {
-                                    items.push(self.const_value(cv, c2.const_.ty(), 0));
-                                    continue;
+                    let v: Option<J> = match &b.1 {
+                        Rvalue::Use(o, ..) => get_op(&vals, o),
+                        Rvalue::Aggregate(kind, ops) => {
+                            let mut items = Vec::new();
+                            let mut ok = true;
+                            for o in ops.iter() {
+                                match get_op(&vals, o) {
+                                    Some(x) => items.push(x),
+                                    None => ok = false,
                                 }
                             }
-                            ok = false;
+                            if !ok {
+                                None
+                            } else {
+                                match **kind {
+                                    rustc_middle::mir::AggregateKind::Array(_) => Some(J::Arr(items)),
+                                    rustc_middle::mir::AggregateKind::Tuple => Some(J::obj(vec![("tuple", J::Arr(items))])),
+                                    _ => None,
+                                }
+                            }
                         }
-                        if ok && !items.is_empty() {
-                            found = Some(J::Arr(items));
+                        Rvalue::Ref(_, _, pl) => {
+                            if pl.projection.is_empty() {
+                                vals.get(&pl.local).cloned()
+                            } else if pl.projection.len() == 1 && matches!(pl.projection[0], rustc_middle::mir::ProjectionElem::Deref) {
+                                vals.get(&pl.local).cloned()
+                            } else {
+                                None
+                            }
+                        }
+                        Rvalue::Cast(_, o, _) => get_op(&vals, o),
+                        _ => None,
+                    };
+                    match v {
+                        Some(x) => {
+                            vals.insert(b.0.local, x);
+                        }
+                        None => {
+                            vals.remove(&b.0.local);
                         }
                     }
                 }
             }
         }
-        found
+        vals.get(&rustc_middle::mir::RETURN_PLACE).cloned()
     }
 
     fn fn_ref(&self, env: TypingEnv<'tcx>, fdid: DefId, args: ty::GenericArgsRef<'tcx>) -> J {
